@@ -42,6 +42,7 @@ type Contract struct {
 	Asserts     []*Clause
 	GhostSets   []*Clause
 	Joins       []*Clause
+	Hypotheses  []*Clause
 	Refines     []string
 	Trusted     bool
 	Opaque      bool // results are fresh unknowns; no other effect
@@ -50,6 +51,7 @@ type Contract struct {
 	Line        int
 	Role        string
 	IfaceDecl   bool
+	Deterministic []string // property tags: the function's result is a function of its arguments
 }
 
 type Pred struct {
@@ -83,6 +85,7 @@ type ObjInv struct {
 	Expr  Expr
 	Label string
 	Src   string
+	Props []string
 }
 
 type FieldRange struct {
@@ -118,7 +121,7 @@ func NewContractSet() *ContractSet {
 var reLabel = regexp.MustCompile(`^\[([^\]]*)\]\s*`)
 var reFuncLine = regexp.MustCompile(`^func\s+(.+?)\s*(\{[^}]*\})?\s*$`)
 var reLoop = regexp.MustCompile(`^loop\s+(\d+)\s+(invariant|decreases)\s*(.*)$`)
-var reAssert = regexp.MustCompile(`^(assert|ghostset)\s*(\[[^\]]*\])?\s*at\s+(\S+)\s*:\s*(.*)$`)
+var reAssert = regexp.MustCompile(`^(assert|ghostset|hypothesis)\s*(\[[^\]]*\])?\s*at\s+(\S+)\s*:\s*(.*)$`)
 
 func parseTags(s string) (props, safety []string) {
 	s = strings.Trim(s, "{} ")
@@ -168,7 +171,7 @@ func (cs *ContractSet) LoadContractFile(path, pkg string) error {
 		}
 		lines = append(lines, rawLine{t, n})
 	}
-	keywords := []string{"func ", "pred ", "ghost ", "uf ", "axiom ", "invariant ", "fieldrange ", "requires", "ensures", "modifies", "decreases", "loop ", "assert", "ghostset", "refines", "trusted", "opaque", "assumption ", "fieldproto ", "role ", "allocates", "interface", "join "}
+	keywords := []string{"func ", "pred ", "ghost ", "uf ", "axiom ", "invariant ", "fieldrange ", "requires", "ensures", "modifies", "decreases", "loop ", "assert", "ghostset", "refines", "trusted", "opaque", "assumption ", "fieldproto ", "role ", "allocates", "interface", "join ", "hypothesis", "deterministic"}
 	isKw := func(s string) bool {
 		s = strings.TrimSpace(s)
 		for _, k := range keywords {
@@ -298,12 +301,15 @@ func (cs *ContractSet) LoadContractFile(path, pkg string) error {
 			if i < 0 {
 				return fail(l, "bad invariant")
 			}
-			label, _, body := takeLabel(strings.TrimSpace(rest[i+1:]))
+			label, iprops, body := takeLabel(strings.TrimSpace(rest[i+1:]))
 			e, err := ParseExpr(body)
 			if err != nil {
 				return fail(l, "%v", err)
 			}
-			cs.ObjInvs = append(cs.ObjInvs, &ObjInv{Type: strings.TrimSpace(rest[:i]), Pkg: pkg, Expr: e, Label: label, Src: body})
+			if label == "" {
+				label = "inv" + strconv.Itoa(len(cs.ObjInvs)+1)
+			}
+			cs.ObjInvs = append(cs.ObjInvs, &ObjInv{Type: strings.TrimSpace(rest[:i]), Pkg: pkg, Expr: e, Label: label, Src: body, Props: iprops})
 		case strings.HasPrefix(t, "fieldrange "):
 			fs := strings.Fields(t)
 			if len(fs) != 4 {
@@ -400,7 +406,7 @@ func (cs *ContractSet) LoadContractFile(path, pkg string) error {
 				} else {
 					ls.Decreases = c
 				}
-			case strings.HasPrefix(t, "assert"), strings.HasPrefix(t, "ghostset"):
+			case strings.HasPrefix(t, "assert"), strings.HasPrefix(t, "ghostset"), strings.HasPrefix(t, "hypothesis"):
 				m := reAssert.FindStringSubmatch(t)
 				if m == nil {
 					return fail(l, "bad assert/ghostset clause")
@@ -428,7 +434,9 @@ func (cs *ContractSet) LoadContractFile(path, pkg string) error {
 				}
 				c.Expr = e
 				c.Src = body
-				if m[1] == "assert" {
+				if m[1] == "hypothesis" {
+					cur.Hypotheses = append(cur.Hypotheses, c)
+				} else if m[1] == "assert" {
 					if c.Label == "" {
 						c.Label = "a" + strconv.Itoa(len(cur.Asserts)+1)
 					}
@@ -465,6 +473,12 @@ func (cs *ContractSet) LoadContractFile(path, pkg string) error {
 				cur.Opaque = true
 			case strings.HasPrefix(t, "allocates"):
 				cur.Allocates = true
+			case strings.HasPrefix(t, "deterministic"):
+				_, props, _ := takeLabel(strings.TrimSpace(strings.TrimPrefix(t, "deterministic")) + " ")
+				if len(props) == 0 {
+					props = []string{"C07"}
+				}
+				cur.Deterministic = props
 			case strings.HasPrefix(t, "interface"):
 				cur.IfaceDecl = true
 			case strings.HasPrefix(t, "role "):
